@@ -107,7 +107,9 @@ class DriverRules:
         from .hmac_rules import HmacRules
         self.tagcmp = HmacRules(prog, report_null()).cmp
         self.D.mac_rec = self.tagcmp.get('rec')
-        self.D.extra_listeners = [GateListener(self.D, self.verify['id'], self.tagcmp['id'])]
+        from .bounds import BoundsListener
+        self.bl = BoundsListener(prog, tagger=lambda: getattr(self.D, 'current_op', None))
+        self.D.extra_listeners = [GateListener(self.D, self.verify['id'], self.tagcmp['id']), self.bl]
         self.Ts = list(range(1, self.D.tmax + 1)) if tier == 'thorough' else [1, 2, 4, self.D.tmax]
         rec.extra['thread_counts'] = self.Ts
         rec.extra['exhaustive_over_T'] = tier == 'thorough'
@@ -397,6 +399,16 @@ class DriverRules:
                                'T=%d %s: verification accepts %s' % (T, op, 'after the tag compare (S-CMP) returned true' if okc else
                                                                     'WITHOUT a true result of the tag compare function %s (%d calls)' % (self.tagcmp['q'], len(cmps))))
         rec.count('S-GATE gated effects', ngate, len(self.Ts))
+        # R11.g: extents of block operations and indexed stores decided from input symbols
+        for op in ('decrypt', 'verify'):
+            f = D.ops[op]
+            bad = sorted({v[1:] for v in self.bl.viol if v[0] == op})
+            for kind, wh, fn, det in bad:
+                rec.ob('R11.g', 'R11.g@%s::%s-inside-object' % (fn, kind.replace(' ', '-')), False, wh, '%s: %s' % (op, det))
+            rec.ob('R11.g', 'R11.g@%s::extents-inside-objects' % fkey(f), not bad, '%s:%s' % (f['file'], f['line']),
+                   '%s: %d block operations / indexed stores with an extent decided from constants and input symbols, all inside the array object they address: %s' % (
+                       op, self.bl.per_tag.get(op, 0), 'yes' if not bad else 'NO'))
+        rec.count('R11.g decided extents', sum(self.bl.per_tag.get(op, 0) for op in ('decrypt', 'verify')), 4)
         # R12.c: both operations do the same things before and inside verification
         for T in self.Ts[:2]:
             sigs = {}
